@@ -155,7 +155,7 @@ class Ctx:
 
     def textlen(self, width, variable=False):
         t = self.textcfg
-        if t in ("sa", "sb", "sc"):
+        if t.startswith("s"):
             return min(3, width)
         if t == "t0":
             return 0
@@ -272,7 +272,7 @@ def rust_any(ctx, d, count=None):
         return "{ let mut v = Vec::new(); let mut i = 0; while i < %s { v.push(%s); i += 1; } v }" % (count, rust_any(ctx, d[2]))
     if k == "special":
         return {"GameVersion8": "GameVersion { major: 0.0, minor: 'A', patch: None }",
-                "SmallType": "any_smalltype_%s()" % (ctx.textcfg if ctx.textcfg in ("sa", "sb", "sc") else "sa"), "MsoTextStart": None, "PlcCars": "any_plc_cars()",
+                "SmallType": "any_smalltype_s(%s)" % (ctx.textcfg[1:] if ctx.textcfg.startswith("s") else "0"), "MsoTextStart": None, "PlcCars": "any_plc_cars()",
                 "CimMode": "any_cimmode()", "Ipv4Unchecked": "std::net::Ipv4Addr::from(kani::any::<u32>())"}[d[2]]
     raise OutOfDate("unknown descriptor %r" % (d,))
 
@@ -305,7 +305,7 @@ def rust_eq(ctx, d, a, b):
         return "{ let mut ok = %s.len() == %s.len(); let mut i = 0; while ok && i < %s.len() { ok = ok && (%s); i += 1; } ok }" % (
             a, b, a, rust_eq(ctx, d[2], "%s[i]" % a, "%s[i]" % b))
     if k == "special":
-        return {"GameVersion8": "%s == %s" % (a, b), "SmallType": "%s == %s" % (a, b), "MsoTextStart": "%s == %s" % (a, b),
+        return {"GameVersion8": "%s == %s" % (a, b), "SmallType": "eq_smalltype(&%s, &%s)" % (a, b), "MsoTextStart": "%s == %s" % (a, b),
                 "PlcCars": "%s == %s" % (a, b), "CimMode": "eq_cimmode(&%s, &%s)" % (a, b), "Ipv4Unchecked": "%s == %s" % (a, b)}[d[2]]
     raise OutOfDate("unknown descriptor %r" % (d,))
 
@@ -528,34 +528,34 @@ pub fn eq_fuel_fuel200(a: &insim::insim::Fuel200, b: &insim::insim::Fuel200) -> 
 }
 
 // ---- SMALL: (SubT, UVal) by InSim.txt: SSP/SSG/STP/RTP hundredths, NLI ms, VTA vote action, TMS 0/1, ALC car bits, LCS/LCL flag words
-/// SMALL sub-types in three groups (all eleven at once do not close in 600 s)
-pub fn any_smalltype_sa() -> insim::insim::SmallType {
-    use insim::insim::SmallType;
-    let sel: u8 = kani::any();
-    kani::assume(sel < 5);
-    match sel {
-        0 => SmallType::Ssp(dur_menu_u32(10)),
-        1 => SmallType::Ssg(dur_menu_u32(10)),
-        2 => SmallType::Stp(dur_menu_u32(10)),
-        3 => SmallType::Rtp(dur_menu_u32(10)),
-        _ => SmallType::Nli(dur_menu_u32(1)),
-    }
-}
-pub fn any_smalltype_sb() -> insim::insim::SmallType {
+/// one SMALL sub-type per configuration (the sub-type byte is pinned in the harness: with a symbolic
+/// sub-type the reader's eleven arms - hash-set construction for ALC, 64-bit time arithmetic for the timed
+/// ones - are all explored and nothing closes in 600 s). The five timed sub-types are C15's.
+pub fn any_smalltype_s(k: u8) -> insim::insim::SmallType {
     use insim::insim::{SmallType, VtnAction, LcsFlags, LclFlags};
-    let sel: u8 = kani::any();
-    kani::assume(sel < 5);
     let u: u32 = kani::any();
-    match sel {
+    match k {
         0 => SmallType::None,
-        1 => SmallType::Vta(match u % 4 { 1 => VtnAction::End, 2 => VtnAction::Restart, 3 => VtnAction::Qualify, _ => VtnAction::None }),
-        2 => SmallType::Tms(u & 1 == 1),
-        3 => SmallType::Lcs(LcsFlags::from_bits_truncate(u)),
+        3 => SmallType::Vta(match u % 4 { 1 => VtnAction::End, 2 => VtnAction::Restart, 3 => VtnAction::Qualify, _ => VtnAction::None }),
+        4 => SmallType::Tms(u & 1 == 1),
+        8 => SmallType::Alc(insim::insim::PlcAllowedCarsSet::default()),
+        9 => SmallType::Lcs(LcsFlags::from_bits_truncate(u)),
         _ => SmallType::Lcl(LclFlags::from_bits_truncate(u)),
     }
 }
-pub fn any_smalltype_sc() -> insim::insim::SmallType {
-    insim::insim::SmallType::Alc(insim::insim::PlcAllowedCarsSet::default())
+/// field-wise equality (the derived PartialEq drags the hash-set comparison of the ALC variant into every query)
+pub fn eq_smalltype(a: &insim::insim::SmallType, b: &insim::insim::SmallType) -> bool {
+    use insim::insim::SmallType::*;
+    match (a, b) {
+        (None, None) => true,
+        (Ssp(x), Ssp(y)) | (Ssg(x), Ssg(y)) | (Stp(x), Stp(y)) | (Rtp(x), Rtp(y)) | (Nli(x), Nli(y)) => x == y,
+        (Vta(x), Vta(y)) => core::mem::discriminant(x) == core::mem::discriminant(y),
+        (Tms(x), Tms(y)) => x == y,
+        (Alc(x), Alc(y)) => x.len() == y.len() && (x.len() == 0 || x.iter().next() == y.iter().next()),
+        (Lcs(x), Lcs(y)) => x.bits() == y.bits(),
+        (Lcl(x), Lcl(y)) => x.bits() == y.bits(),
+        _ => false,
+    }
 }
 pub fn ref_smalltype(s: &insim::insim::SmallType, o: &mut Img) {
     use insim::insim::{SmallType, VtnAction};
@@ -689,7 +689,7 @@ def kind_configs(variant, descs):
     if variant == "Small":
         # the five timed sub-types ("sa") are decided value by value, layout included, by C15 (c15_small_*_wire /
         # c15_small_*_encode); together in one packet harness they do not close in 600 s
-        return [("sb", None), ("sc", None)]
+        return [("s%d" % k, None) for k in (0, 3, 4, 9, 10)]  # ALC (8): out of memory even for the empty set; its bit table is c02_plc_car_bit_*
     has_text = any(d[0] in ("str", "strv") for d in descs) or "HostInfo" in str(descs)
     has_var = any(d[0] == "strv" for d in descs)
     vec = [d for d in descs if d[0] == "vec"]
@@ -858,7 +858,8 @@ def generate(repo):
                 textmax = max(textmax, ctx.textlen(32))
             unwind = max(20, textmax + 3, max([d[2] for d in descs if d[0] == "arr"] + [0]) + 2,
                          max([d[2] for d in descs if d[0] == "str"] + [0]) + 2,
-                         max([f_width(ctx, d) for d in descs if d[0] == "strv"] + [0]) + 2, (cnt or 0) + 3)
+                         max([f_width(ctx, d) for d in descs if d[0] == "strv"] + [0]) + 2, (cnt or 0) + 3,
+                         35 if "HostInfo" in str(descs) else 0, frame_w + 2)
             stubs = ("#[kani::stub(alloc::fmt::format, stub_format)]\n"
                      "#[kani::stub(insim_core::string::codepages::to_lossy_string, stub_to_lossy_string)]\n"
                      "#[kani::stub(insim_core::string::codepages::to_lossy_bytes, stub_to_lossy_bytes)]\n"
@@ -871,12 +872,48 @@ def generate(repo):
                   "    let mut w = Cursor::new(&mut out[..]);\n"
                   "    let r = pk.write_le(&mut w);\n"
                   "    let n = w.position() as usize;\n" % (BUF, variant))
+            cntpos = None
+            off = 0
+            for d in descs:
+                if d[0] == "count":
+                    cntpos = off
+                off += f_width(ctx, d, cnt) if d[0] != "vec" else 0
+            if variant in ("Mal", "Ipb"):
+                cntpos = 1
+            # the element count travels through the byte buffer; CBMC does not propagate it as a constant
+            # through the cursor's memcpy, and a counted read with a symbolic count never closes. So: ASSERT the
+            # count byte has the expected value (decided by the solver), then store that same constant back.
+            pin_out = ("    assert!(out[%d] == %d, \"C01:count byte equals the number of elements\");\n    out[%d] = %d;\n"
+                       % (cntpos + 1, cnt, cntpos + 1, cnt)) if cntpos is not None else ""
+            extra_pins = []  # (body offset, value): same idea for the SMALL sub-type byte (and the empty ALC word)
+            if variant == "Small":
+                k = int(tc[1:])
+                extra_pins = [(1, k)] + ([(2, 0), (3, 0), (4, 0), (5, 0)] if k == 8 else [])
+            # raw text fields that are empty in this configuration, and the (empty) PLC car word: the reader's
+            # UTF-8 validation / twenty conditional hash-set insertions over bytes CBMC regards as symbolic
+            bo = 0
+            for d in descs:
+                wd = f_width(ctx, d, cnt) if d[0] != "vec" else (cnt or 0) * d[3]
+                if d[0] == "str" and len(d) > 3 and d[3] == "raw" and str_len(ctx, d) == 0:
+                    extra_pins += [(bo + j, 0) for j in range(wd)]
+                if d[0] == "special" and d[2] == "PlcCars":
+                    extra_pins += [(bo + j, 0) for j in range(4)]
+                bo += wd
+            for (bo, val) in extra_pins:
+                pin_out += "    assert!(out[%d] == %d, \"C01:pinned byte (sub-type / empty raw text / empty car word) has its expected value\");\n    out[%d] = %d;\n" % (bo + 1, val, bo + 1, val)
+            pin_ref = ("    assert!(ob[%d] == %d, \"C02:reference count byte (harness self-check)\");\n    ob[%d] = %d;\n"
+                       % (cntpos + 2, cnt, cntpos + 2, cnt)) if cntpos is not None else ""
+            for (bo, val) in extra_pins:
+                pin_ref += "    assert!(ob[%d] == %d, \"C02:pinned reference byte (harness self-check)\");\n    ob[%d] = %d;\n" % (bo + 2, val, bo + 2, val)
             # ---- C01
             out.append(hdr + "fn c01_%s() {\n    let p = any_%s();\n%s"
                        "    let wrote = r.is_ok();\n    std::mem::forget(r);\n"
                        "    assert!(wrote, \"C01:representable packet refused by the encoder\");\n"
-                       "    assert!(n >= 2 && n <= %d, \"C01:encoder wrote an impossible number of bytes\");\n"
-                       "    let mut c = Cursor::new(&out[1..n]);\n"
+                       "    // the slice handed to the reader must have a CONCRETE length for the query to close: the expected\n"
+                       "    // frame size is known from the layout, the solver checks the writer produced exactly that many bytes\n"
+                       "    assert!(n == %d, \"C01:encoder wrote a different number of bytes than the packet's layout has\");\n"
+                       "@PIN_OUT@"
+                       "    let mut c = Cursor::new(&out[1..%d]);\n"
                        "    let rq = <%s>::read_le(&mut c);\n"
                        "    let decoded = rq.is_ok();\n"
                        "    assert!(decoded, \"C01:encoder output does not decode\");\n"
@@ -885,7 +922,8 @@ def generate(repo):
                        "    assert!(c.position() as usize + 1 == n, \"C01:decoder does not consume the whole frame\");\n"
                        "    kani::cover!(true, \"round trip completed\");\n"
                        "    std::mem::forget(q); std::mem::forget(pk); std::mem::forget(p);\n}\n"
-                       % (tag, tag, wr, BUF, T, low))
+                       % (tag, tag, wr, W, W, T, low))
+            out[-1] = out[-1].replace("@PIN_OUT@", pin_out)
             # ---- C02
             out.append(hdr + "fn c02_%s() {\n    let p = any_%s();\n"
                        "    let mut o = Img::new();\n    ref_%s(&p, &mut o);\n"
@@ -896,7 +934,11 @@ def generate(repo):
                        "    let i: usize = kani::any(); kani::assume(i >= 1 && i < o.n && i <= n);\n"
                        "    assert!(out[i - 1] == o.b[i], \"C02:encoded byte differs from the specification layout\");\n"
                        "    kani::cover!(true, \"typed -> bytes compared\");\n"
-                       "    let mut c = Cursor::new(&o.b[2..o.n]);\n"
+                       "    // copy the reference frame into a plain array (concrete structure for CBMC), then as in C01\n"
+                       "    let mut ob = [0u8; %d];\n"
+                       "    { let mut k = 0; while k < %d { ob[k] = o.b[k]; k += 1; } }\n"
+                       "@PIN_REF@"
+                       "    let mut c = Cursor::new(&ob[2..%d]);\n"
                        "    let rq = <%s>::read_le(&mut c);\n"
                        "    let decoded = rq.is_ok();\n"
                        "    assert!(decoded, \"C02:specification-conformant frame rejected\");\n"
@@ -904,7 +946,8 @@ def generate(repo):
                        "    assert!(eq_%s(&p, &q), \"C02:specification-conformant frame decodes to different values\");\n"
                        "    kani::cover!(true, \"bytes -> typed compared\");\n"
                        "    std::mem::forget(q); std::mem::forget(pk); std::mem::forget(p);\n}\n"
-                       % (tag, tag, tag, frame_w, wr, T, low))
+                       % (tag, tag, tag, frame_w, wr, frame_w, frame_w, frame_w, T, low))
+            out[-1] = out[-1].replace("@PIN_REF@", pin_ref)
             # ---- C03
             cntpos = None
             off = 0
@@ -923,7 +966,7 @@ def generate(repo):
                        % (tag, tag, wr, magic,
                           ("        assert!(out[%d] as usize == %d, \"C03:count byte equals the number of elements\");\n" % (cntpos + 1, cnt))
                           if cntpos is not None else ""))
-            tier = "quick" if (variant in QUICK_KINDS and tc in ("t3", "sa", "sb") and cnt in (None, 1)) else "thorough"
+            tier = "quick" if (variant in QUICK_KINDS and (tc == "t3" or tc in ("s0", "s4", "s9")) and cnt in (None, 1)) else "thorough"
             needs_c03 = any(d[0] in ("vec", "strv", "align4") for d in descs)
             for prop in ("c01", "c02", "c03"):
                 if prop == "c03" and not needs_c03:
@@ -934,9 +977,28 @@ def generate(repo):
                     t2 = tier
                 index.append(dict(name="%s_%s" % (prop, tag), prop=prop.upper(), tier=t2, unwind=unwind, cost=60 + 4 * frame_w,
                                   bounds="%s: every field symbolic in its wire domain; text length %s (content symbolic ASCII); %s"
-                                         % (variant, {"t0": "0", "t3": "min(3,width)", "t4": "4", "tf": "full width", "sa": "n/a (SMALL timed sub-types)", "sb": "n/a (SMALL NONE/VTA/TMS/LCS/LCL)", "sc": "n/a (SMALL ALC, empty set)"}[tc],
+                                         % (variant, {"t0": "0", "t3": "min(3,width)", "t4": "4", "tf": "full width", }.get(tc, "n/a (SMALL sub-type %s)" % tc[1:]),
                                             "element count %s" % cnt if cnt is not None else "no counted part"),
                                   functions=["<insim::Packet as BinWrite>::write_options", "<%s as BinWrite>::write_options" % T, "<%s as BinRead>::read_options" % T]))
+        if variant == "Mal":
+            out.append("#[kani::proof]\n#[kani::unwind(20)]\n"
+                       "#[kani::stub(alloc::fmt::format, stub_format)]\n"
+                       "#[kani::stub(std::hash::RandomState::new, stub_random_state)]\n"
+                       "fn c03_mal_n1_encodable() {\n"
+                       "    // the MAL writer aborts (unreachable!) on any element that is not a mod id: whatever the reader\n"
+                       "    // accepts must therefore be a mod, with exactly the id on the wire\n"
+                       "    let mut img: [u8; 10] = kani::any();\n    img[1] = 1;\n"
+                       "    let mut c = Cursor::new(&img[..]);\n"
+                       "    let r = <insim::insim::Mal>::read_le(&mut c);\n"
+                       "    if let Ok(p) = &r {\n"
+                       "        assert!(p.len() == 1, \"C03:decoded MAL element count\");\n"
+                       "        let id = u32::from_le_bytes([img[6], img[7], img[8], img[9]]);\n"
+                       "        assert!(matches!(p.iter().next(), Some(Vehicle::Mod(m)) if *m == id), \"C03:decoded MAL holds a non-mod vehicle (the encoder aborts on it)\");\n"
+                       "        kani::cover!(true, \"MAL with one id decoded\");\n"
+                       "    }\n    std::mem::forget(r);\n}\n")
+            index.append(dict(name="c03_mal_n1_encodable", prop="C03", tier="quick", unwind=20, cost=80,
+                              bounds="IS_MAL body with NumM = 1 and every other byte symbolic (10 bytes)",
+                              functions=["<insim::insim::Mal as BinRead>::read_options", "indexmap::IndexSet::insert"]))
         # ---- Codec::encode wiring for this kind: Default payload (concrete), both modes (symbolic)
         cw = max([d[2] for d in descs if d[0] == "str"] + [d[2] for d in descs if d[0] == "arr"] + [45]) + 3
         out.append("#[kani::proof]\n#[kani::unwind(%d)]\n"
